@@ -384,7 +384,7 @@ fn c03_inprocess(ctx: &Ctx) -> Stats {
         let mut st = Stats::new();
         let mut rng = Rng::new(ctx.seed, 3500 + w as u64);
         for i in 0..(n_pos / ctx.workers as u64 + 1) {
-            if ctx.out_of_time() {
+            if i >= 2 && ctx.out_of_time() {
                 break;
             }
             let p = match i % 5 {
@@ -533,7 +533,7 @@ pub fn run_c03(ctx: &Ctx) -> i32 {
             }
         }
         for i in 0..(n / ctx.workers as u64 + 1) {
-            if ctx.out_of_time() {
+            if i >= 1 && ctx.past(0.6) {
                 break;
             }
             c03_session(ctx, &mut rng, &mut st, (w as u64) << 32 | i);
@@ -777,8 +777,8 @@ pub fn run_c13(ctx: &Ctx) -> i32 {
         let mut st = Stats::new();
         let mut rng = Rng::new(ctx.seed, 1300 + w as u64);
         // (a) across processes
-        for _ in 0..(n_scripts / ctx.workers as u64 + 1) {
-            if ctx.out_of_time() {
+        for k in 0..(n_scripts / ctx.workers as u64 + 1) {
+            if k >= 1 && ctx.past(0.4) {
                 break;
             }
             let script = depth_script(&mut rng, !ctx.quick(), true);
@@ -812,8 +812,8 @@ pub fn run_c13(ctx: &Ctx) -> i32 {
             }
         }
         // (c) ucinewgame
-        for _ in 0..(n_new / ctx.workers as u64 + 1) {
-            if ctx.out_of_time() {
+        for k in 0..(n_new / ctx.workers as u64 + 1) {
+            if k >= 1 && ctx.past(0.75) {
                 break;
             }
             let prefix = prefix_script(&mut rng);
@@ -847,8 +847,8 @@ pub fn run_c13(ctx: &Ctx) -> i32 {
             }
         }
         // (b) key sets in-process
-        for _ in 0..(n_keys / ctx.workers as u64 + 1) {
-            if ctx.out_of_time() {
+        for k in 0..(n_keys / ctx.workers as u64 + 1) {
+            if k >= 1 && ctx.out_of_time() {
                 break;
             }
             let p = if rng.chance(1, 3) { gen::g_small(&mut rng, 10) } else { gen::g_game_pos(&mut rng) };
